@@ -200,6 +200,28 @@ def run(chk):
                 chk.disagreements += 1
                 chk.unproven("close:correspondence", "implementation and proved model differ",
                              dict(rep, impl=[ab, ba], model=[mab, mba]))
+            # caller-supplied tolerances: looser and stricter than the default
+            for rel, abst in ((1e-5, 1e-8), (1e-12, 0.0)):
+                it = g.isclose(h, rel_tol=rel, abs_tol=abst)
+                try:
+                    g.assert_close(h, rel_tol=rel, abs_tol=abst)
+                    it2 = True
+                except AssertionError:
+                    it2 = False
+                mt = drv.call("close", pg, ph, rel, abst)
+                if it != it2:
+                    chk.violation("close:forms-disagree", "isclose and assert_close disagree with tolerances (%g, %g)" % (rel, abst), rep)
+                if mt != it:
+                    chk.disagreements += 1
+                    looser = rel > 1e-9
+                    if kind.startswith("perturb") and kind.endswith(":in") and looser and not it:
+                        chk.violation("close:tolerance-not-honoured", "a difference inside the requested tolerance (%g) is reported" % rel, rep)
+                    elif kind.startswith("perturb") and kind.endswith(":in") and not looser and it:
+                        chk.violation("close:tolerance-not-honoured", "a difference outside the requested tolerance (%g) is missed" % rel, rep)
+                    else:
+                        chk.unproven("close:correspondence-tolerance",
+                                     "implementation and proved model differ with tolerances (%g, %g)" % (rel, abst),
+                                     dict(rep, impl=it, model=mt))
         chk.sample(dict(graph=label, demes=len(g.demes), migrations=len(g.migrations), pulses=len(g.pulses)))
     drv.close()
     return chk.finish("proof", nobl, ndis, axioms, RULE,
